@@ -178,9 +178,9 @@ func (d *decompressor) lazyBlock() {
 		}
 		return
 	}
-	if !d.blk.ownedBy(d.owner) {
-		d.blk.setOwner(d.owner)
-	}
+	// The Block is being recycled: reset it so that, if filling it
+	// fails, it does not keep the previous member's data and header.
+	d.blk.setOwner(d.owner)
 }
 
 // acquireHead gains the read head from the decompressor's owner.
